@@ -685,7 +685,14 @@ func (o *c13Orc) judge(cs *c13Case, rep c13Report) {
 	rendered := "\n | " + strings.Replace(line, "\t", " ", -1)
 	if !strings.HasPrefix(fe.Snippet, rendered) {
 		if fe.Snippet == "" {
-			viol("c13:snippet-missing", "no snippet although the line exists")
+			if len(line) != len([]rune(line)) {
+				// the candidate defect "Bind leaves the snippet unset on a line with multi-byte runes": it does
+				// NOT occur — Bind sets the bare line and only omits the indicator line (see Props/C13
+				// bind_no_indicator_on_multibyte and the bind correspondence); the key is kept so that it would show
+				viol("c13:snippet-missing-on-multibyte-line", "no snippet on a line with multi-byte runes")
+			} else {
+				viol("c13:snippet-missing", "no snippet although the line exists")
+			}
 		} else {
 			viol("c13:snippet-not-the-line", "snippet is not the source line the error names")
 		}
